@@ -24,6 +24,7 @@ var bytesFuncs = []bfnSpec{
 	{"Message", "Preamble"}, {"Message", "BusIdentifier"}, {"Message", "Identifier"}, {"Message", "IsExtended"},
 	{"Message", "Length"}, {"Message", "Data"}, {"Message", "Checksum"}, {"Message", "IsError"}, {"Message", "ErrorCode"},
 	{"Message", "Validate"}, {"MTData2", "PacketAt"}, {"", "ScanMessages"}, {"", "NewMessage"},
+	{"MTData2Packet", "SetLength"}, {"MTData2Packet", "SetIdentifier"}, {"", "NewMTData2Package"},
 }
 
 func bfnName(recv, name string) string {
@@ -41,6 +42,7 @@ type benv struct {
 	fresh int
 	sites int
 	known map[string]bool // translated functions (by Coq name)
+	mutators map[string]bool // those that return their receiver's final value
 }
 
 func (e *benv) bad(n ast.Node, why string) string {
@@ -93,6 +95,10 @@ func bkind(t types.Type) string {
 		if named, ok := t.(*types.Named); ok && named.Obj().Name() == "error" {
 			return "error"
 		}
+	case *types.Struct:
+		if named, ok := t.(*types.Named); ok && named.Obj().Name() == "DataIdentifier" {
+			return "dataid"
+		}
 	}
 	return ""
 }
@@ -109,6 +115,8 @@ func coqKind(k string) string {
 		return "option Z"
 	case "float":
 		return "f64"
+	case "dataid":
+		return "(Z * Z * Z)"
 	}
 	return "unit"
 }
@@ -401,6 +409,12 @@ func (e *benv) expr(n ast.Expr) bex {
 				site := e.sites
 				return e.combine(ops, func([]string) string { return fmt.Sprintf("(Some %d)", site) })
 			}
+			if bkind(e.x.info.TypeOf(sel.X)) == "dataid" && sel.Sel.Name == "Uint16" && len(v.Args) == 0 {
+				a := e.expr(sel.X)
+				return e.combine([]bex{a}, func(s []string) string {
+					return "(let '(dt_, cs_, pr_) := " + s[0] + " in f_DataIdentifier_Uint16 dt_ cs_ pr_)"
+				})
+			}
 			// a method of a byte-slice type that is itself translated
 			if s := e.x.info.Selections[sel]; s != nil && s.Kind() == types.MethodVal {
 				rt := s.Recv()
@@ -528,15 +542,39 @@ func (e *benv) block(stmts []ast.Stmt, ret func([]ast.Expr) string, cont func() 
 		return bindv(vs.Names[0].Name, bex{zero, true})
 	case *ast.ExprStmt:
 		call, ok := s.X.(*ast.CallExpr)
-		if !ok || len(call.Args) != 2 {
+		if !ok {
 			return e.bad(s, "unsupported expression statement")
 		}
-		// destination: x or x[a:] for a local byte slice x
+		// x.M(args) for a local byte slice x and a translated method that writes through its receiver
+		if sel, ok := call.Fun.(*ast.SelectorExpr); ok {
+			if rid, ok := sel.X.(*ast.Ident); ok {
+				if sl := e.x.info.Selections[sel]; sl != nil && sl.Kind() == types.MethodVal {
+					if named, ok := sl.Recv().(*types.Named); ok && bkind(named) == "bytes" {
+						fn := bfnName(named.Obj().Name(), sel.Sel.Name)
+						if cur, okv := e.vars[rid.Name]; okv && e.known[fn] && e.mutators[fn] {
+							ops := []bex{{cur, true}}
+							for _, a := range call.Args {
+								ops = append(ops, e.expr(a))
+							}
+							return bindv(rid.Name, e.flatten(e.combine(ops, func(a []string) string { return "(" + fn + " " + strings.Join(a, " ") + ")" })))
+						}
+					}
+				}
+			}
+		}
+		if len(call.Args) != 2 {
+			return e.bad(s, "unsupported expression statement")
+		}
+		// destination: x, x[a:] or x[a:b] for a local byte slice x
 		dst, off := call.Args[0], bex{"0", true}
-		if se, ok := dst.(*ast.SliceExpr); ok && se.High == nil && !se.Slice3 {
+		hi := bex{"", true}
+		if se, ok := dst.(*ast.SliceExpr); ok && !se.Slice3 {
 			dst = se.X
 			if se.Low != nil {
 				off = e.expr(se.Low)
+			}
+			if se.High != nil {
+				hi = e.expr(se.High)
 			}
 		}
 		did, ok := dst.(*ast.Ident)
@@ -559,7 +597,17 @@ func (e *benv) block(stmts []ast.Stmt, ret func([]ast.Expr) string, cont func() 
 		src := e.expr(call.Args[1])
 		switch full {
 		case "(encoding/binary.bigEndian).PutUint16":
+			if hi.t != "" {
+				return bindv(did.Name, e.flatten(e.combine([]bex{off, hi, src}, func(a []string) string {
+					return "(g_put16_in " + cur + " " + a[0] + " " + a[1] + " " + a[2] + ")"
+				})))
+			}
 			return bindv(did.Name, e.flatten(e.combine([]bex{off, src}, func(a []string) string { return "(g_put16 " + cur + " " + a[0] + " " + a[1] + ")" })))
+		}
+		if hi.t != "" {
+			return e.bad(s, "unsupported bounded destination")
+		}
+		switch full {
 		case "(encoding/binary.bigEndian).PutUint32":
 			return bindv(did.Name, e.flatten(e.combine([]bex{off, src}, func(a []string) string { return "(g_putn 4 " + cur + " " + a[0] + " " + a[1] + ")" })))
 		case "(encoding/binary.bigEndian).PutUint64":
@@ -729,7 +777,7 @@ var fixedFuncs = []bfnSpec{
 
 func (x *xl) bytesFns(w *bytes.Buffer) {
 	w.WriteString("(* GENERATED by go/xlate (bytesfn.go) from message.go, mtdata2.go, scanmessages.go: the byte-slice functions,\n   statement by statement, in the Go fragment of Base/GoBytes.v.  Do not edit. *)\n")
-	w.WriteString("From Coq Require Import ZArith NArith List Bool.\nRequire Import XS.Base.Bytes XS.Base.GoInt XS.Base.GoBytes.\nImport ListNotations.\nOpen Scope Z_scope.\n\n")
+	w.WriteString("From Coq Require Import ZArith NArith List Bool.\nRequire Import XS.Base.Bytes XS.Base.GoInt XS.Base.GoBytes XS.Gen.Funcs.\nImport ListNotations.\nOpen Scope Z_scope.\n\n")
 	x.renderFns(w, bytesFuncs)
 }
 
@@ -741,6 +789,7 @@ func (x *xl) fixedFns(w *bytes.Buffer) {
 
 func (x *xl) renderFns(w *bytes.Buffer, list []bfnSpec) {
 	known := map[string]bool{}
+	mutators := map[string]bool{}
 	for _, sp := range list {
 		item := "byte function " + sp.recv + "." + sp.name
 		fd := x.findFunc(sp.recv, sp.name)
@@ -750,7 +799,7 @@ func (x *xl) renderFns(w *bytes.Buffer, list []bfnSpec) {
 			fmt.Fprintf(w, "Definition %s_missing : unit := tt.\n\n", coqName)
 			continue
 		}
-		e := &benv{x: x, item: item, ok: true, vars: map[string]string{}, known: known}
+		e := &benv{x: x, item: item, ok: true, vars: map[string]string{}, known: known, mutators: mutators}
 		var params []string
 		if fd.Recv != nil && len(fd.Recv.List) == 1 && len(fd.Recv.List[0].Names) == 1 {
 			nm := fd.Recv.List[0].Names[0].Name
@@ -786,9 +835,11 @@ func (x *xl) renderFns(w *bytes.Buffer, list []bfnSpec) {
 		// a method on a pointer receiver that returns nothing: its effect is the receiver's final value
 		recvResult := ""
 		if len(rkinds) == 0 && fd.Recv != nil && len(fd.Recv.List) == 1 && len(fd.Recv.List[0].Names) == 1 {
-			if _, isPtr := fd.Recv.List[0].Type.(*ast.StarExpr); isPtr && bkind(x.info.TypeOf(fd.Recv.List[0].Type)) == "bytes" {
+			if bkind(x.info.TypeOf(fd.Recv.List[0].Type)) == "bytes" {
+				// pointer to an array, or a slice (the writes go to the shared backing array)
 				recvResult = fd.Recv.List[0].Names[0].Name
 				rkinds = []string{"bytes"}
+				mutators[coqName] = true
 			}
 		}
 		rtypes := make([]string, len(rkinds))
